@@ -40,7 +40,8 @@ def extract(ctx):
     t = rw.sub(t, r'cache_aligned_allocator<task_info>\(\)\.allocate\((\w+)\)', r'(task_info*)alloc_nofail(\1*sizeof(task_info))', 1, 1, name='alloc->alloc_nofail')
     t = rw.sub(t, r'cache_aligned_allocator<task_info>\(\)\.deallocate\((\w+),\s*(\w+)\)', r'free(\1)', 1, 1, name='dealloc->free')
     t = rw.sub(t, r'(?<![\w.>])(array_size|array|low_token)\b', r'self->\1', 3, name='field')
-    t = tag_loops(t, 'grow', rw, expect=3)
+    t = tag_loops(t, 'grow', rw, names=[(r'while\s*\(\s*new_size\s*<', 'size'), (r'i\s*<\s*new_size', 'init'), (r'i\s*<\s*old_size', 'rehash')])
+    ctx.grow_loops = sum(v for k_, v in rw.fired.items() if k_.startswith('loop:grow_'))
     grow = t
     M = ['grow']
     PRE = [(r'spin_mutex::scoped_lock lock\( array_mutex \);', 'LOCK_HELD();', 1), (r'ITT_NOTIFY\([^;]*\);', 'RG_NOP();', 1),
@@ -347,7 +348,7 @@ def build(ctx):
     sliced, fired = extract(ctx)
     C = os.path.join(HERE, 'c07.c')
     jobs = [
-        Job('ib.grow', C, 'h_grow', route='LC', enforce='input_buffer_grow', loops=True, nloops=3, timeout=600, target='input_buffer::grow', source=PP),
+        Job('ib.grow', C, 'h_grow', route='LC', enforce='input_buffer_grow', loops=True, nloops=ctx.grow_loops, timeout=600, target='input_buffer::grow', source=PP),
         Job('ib.try_put_token', C, 'h_put', route='LC', replace=['input_buffer_grow'], timeout=900,
             target='input_buffer::try_put_token (modular: grow replaced by its proved contract)', source=PP),
         Job('ib.next_token', C, 'h_next', route='LF', timeout=600,
